@@ -45,6 +45,9 @@ def run(tier):
         ("approx_asan", "approximate variants + spanner on large families (hubs, long BFS frontiers)", [["--families", LARGE, "--alpha", a, "--ks", "1,2,3,4,n+1"] for a in ("U", "M3")], {}),
         ("exact_asan", "exact variants (seq + real oneTBB), G(0..4) x A2, double+int", [["--n", n, "--alpha", "A2", "--variants", allv, "--workers", 8] for n in range(0, 5)] + [["--n", 4, "--alpha", "A2", "--wtype", "int"]], {}),
         ("exact_asan", "exact variants, G(5) x U and blob grammar", [["--n", 5, "--alpha", "U", "--variants", allv, "--workers", 8], ["--grammar", "blobs:2:2", "--alpha", "M2"]], {"VR_LEAK_EVERY": "16"}),
+        ("exact_asan", "exact variants with an exterior weight map (stateful map object; interior property holds decoys) and with a positional output iterator, G(3..4) x A2",
+         [["--n", n, "--alpha", "A2", "--variants", allv, "--workers", 8, "--wmap", 1] for n in (3, 4)] + [["--n", 4, "--alpha", "A2", "--variants", allv, "--workers", 8, "--outiter", 1]], {}),
+        ("approx_asan", "approximate variants with a positional output iterator, G(4) x A2", [["--n", 4, "--alpha", "A2", "--ks", "1,2,3", "--outiter", 1]], {}),
         ("approx_asan", "approximate variants + spanner, G(0..4) x A2, k in {0,1,2,3,n+1}", [["--n", n, "--alpha", "A2", "--ks", "0,1,2,3,n+1"] for n in range(0, 5)], {}),
         ("approx_asan", "approximate variants, G(5) x U", [["--n", 5, "--alpha", "U", "--ks", "1,2,3"]], {}),
         ("components_asan", "SPTree / greedy_fvs / collections / ForestIndex, G(0..5) x U, G(4) x A2, blob grammar", [["--comp", cmp, "--n", n, "--alpha", "U"] for cmp in ("sptree", "fvs", "collections", "forest") for n in (0, 1, 2, 5)]
